@@ -367,6 +367,7 @@ fn run_uc_hist(ctx: &RunCtx, prefix_len: usize) -> RunOut {
         }
     }
     let log = h.log();
+    crate::cross::stash(&log, true);
     let mut out = RunOut::new(format!("judged{judged}"), judged > 0, trace::digest(&log));
     if ctx.want_trace {
         out.trace = Some(json!({"history": desc, "log": trace::trace_json(&log)}));
@@ -500,6 +501,14 @@ fn run_reports(ctx: &RunCtx) -> RunOut {
     }
     let _ = Duration::ZERO;
     out
+}
+
+/// This module's forgery histories (2 prefix steps, at most 2 non-default forgery parameters) for sibling oracles.
+pub fn run_for_cross(ctx: &RunCtx) -> RunOut {
+    run_uc_hist(ctx, 2)
+}
+pub fn cross_cfg(name: &str) -> Cfg {
+    Cfg::new(name).dev(2).free(&["step"])
 }
 
 fn parts(tier: Tier) -> Vec<PartDef> {
